@@ -87,6 +87,11 @@ def parseLong (fs : PFlags) (body : Str) (next : Option Str) : Except Err ((Str 
           | some a => if valueOk f a then .ok ((f.name, a), true) else .error .badValue
           | none => .error .needsArg
 
+/-- the value attached with `=` to a shorthand letter (`-f=arg`, at least one character) -/
+def eqValue : Str → Option Str
+  | '=' :: d :: r2 => some (d :: r2)
+  | _ => none
+
 /-- `parseShortArg`: the letters after `-`; only the last letter can take the next word -/
 def parseShort (fs : PFlags) : Str → Option Str → Except Err (List (Str × Str) × Bool)
   | [], _ => .ok ([], false)
@@ -94,11 +99,10 @@ def parseShort (fs : PFlags) : Str → Option Str → Except Err (List (Str × S
     match findShort fs c with
     | none => if c = 'h' then .error .help else .error .unknownShort
     | some f =>
-      match rest with
-      | '=' :: (d :: r2) =>                       -- -f=arg
-        let v := d :: r2
+      match eqValue rest with
+      | some v =>                                 -- -f=arg
         if valueOk f v then .ok ([(f.name, v)], false) else .error .badValue
-      | _ =>
+      | none =>
         match f.noOptDefVal with
         | some dv =>                              -- -f (no / optional argument): go on with the next letter
           match parseShort fs rest next with
@@ -107,29 +111,40 @@ def parseShort (fs : PFlags) : Str → Option Str → Except Err (List (Str × S
         | none =>
           match rest with
           | d :: r2 =>                            -- -farg
-            let v := d :: r2
-            if valueOk f v then .ok ([(f.name, v)], false) else .error .badValue
+            if valueOk f (d :: r2) then .ok ([(f.name, d :: r2)], false) else .error .badValue
           | [] =>
             match next with
             | some a => if valueOk f a then .ok ([(f.name, a)], true) else .error .badValue
             | none => .error .needsArg
+
+/-- how `parseArgs` takes a word: the terminator, a long flag (text after `--`), a group of
+    shorthand letters (text after `-`), or a positional argument (also `-` and the empty word) -/
+inductive WordKind where
+  | dash | long (body : Str) | short (cs : Str) | pos
+  deriving DecidableEq, Repr
+
+def wordKind : Str → WordKind
+  | ['-', '-'] => .dash
+  | '-' :: '-' :: body => .long body
+  | '-' :: c :: more => .short (c :: more)
+  | _ => .pos
 
 /-- `parseArgs`; `skip` = the word at the head was taken as the value of the flag before it -/
 def parseArgs (fs : PFlags) (interspersed : Bool) : List Str → Bool → Parsed → Except Err Parsed
   | [], _, p => .ok p
   | _ :: rest, true, p => parseArgs fs interspersed rest false p
   | s :: rest, false, p =>
-    match s with
-    | '-' :: '-' :: [] => .ok { p with lenAtDash := some p.args.length, args := p.args ++ rest }
-    | '-' :: '-' :: body =>
+    match wordKind s with
+    | .dash => .ok { p with lenAtDash := some p.args.length, args := p.args ++ rest }
+    | .long body =>
       match parseLong fs body rest.head? with
       | .error e => .error e
       | .ok (a, took) => parseArgs fs interspersed rest took { p with sets := p.sets ++ [a] }
-    | '-' :: c :: more =>
-      match parseShort fs (c :: more) rest.head? with
+    | .short cs =>
+      match parseShort fs cs rest.head? with
       | .error e => .error e
       | .ok (as, took) => parseArgs fs interspersed rest took { p with sets := p.sets ++ as }
-    | _ =>
+    | .pos =>
       if interspersed then parseArgs fs interspersed rest false { p with args := p.args ++ [s] }
       else .ok { p with args := p.args ++ s :: rest }
 
